@@ -3,28 +3,22 @@ import MythVerif.Proofs.WsQueueTsoTac
 namespace MythVerif.WsqTso
 open MythVerif.Wsq
 
-set_option maxHeartbeats 4000000 in
 theorem f_O_top_idle (s : St) (v0) (rest : List Sto) : Inv s → s.opc = .idle →
     s.bufO = .top v0 :: rest → Inv (applySto { s with bufO := rest } (.top v0)) := by
   intro h hpc hb
   simp only [applySto]
-  cases h; simp only [hpc, ownerLocked, carry, resetting, ownerFlight] at *
-  tso_finish3
+  tso_fastO h hpc [carryC]
 
-set_option maxHeartbeats 4000000 in
 theorem f_O_top_pu0 (s : St) (v0) (rest : List Sto) (e) : Inv s → s.opc = .pu0 e →
     s.bufO = .top v0 :: rest → Inv (applySto { s with bufO := rest } (.top v0)) := by
   intro h hpc hb
   simp only [applySto]
-  cases h; simp only [hpc, ownerLocked, carry, resetting, ownerFlight] at *
-  tso_finish3
+  tso_fastO h hpc [carryC]
 
-set_option maxHeartbeats 4000000 in
 theorem f_O_top_pu0f (s : St) (v0) (rest : List Sto) (e t) : Inv s → s.opc = .pu0f e t →
     s.bufO = .top v0 :: rest → Inv (applySto { s with bufO := rest } (.top v0)) := by
   intro h hpc hb
   simp only [applySto]
-  cases h; simp only [hpc, ownerLocked, carry, resetting, ownerFlight] at *
-  tso_finish3
+  tso_fastO h hpc [pu0f, carryC]
 
 end MythVerif.WsqTso
